@@ -143,11 +143,30 @@ pub mod rust_log_ref_finder
                     let mut log_message_span: Option<pest::Span> = None;
                     let rule_ref_container_span = rule_l2.as_span();
                     let mut kvp_spans: Vec<(pest::Span, Option<pest::Span>)> = Vec::new();
+                    let mut target_arg_found = false;
+                    let mut post_target_pos: Option<pest::Position> = None;
 
                     for rule in rule_l2.into_inner()
                     {
+                        /*
+                         * If there's a target argument, a new structured
+                         * reference has to go after it: remember where the
+                         * first argument following the target starts.
+                         */
+                        if target_arg_found
+                            && post_target_pos.is_none()
+                            && (rule.as_rule() == Rule::kvp_args
+                                || rule.as_rule() == Rule::string_literal)
+                        {
+                            post_target_pos = Some(rule.as_span().start_pos());
+                        }
+
                         match rule.as_rule()
                         {
+                            Rule::target_arg =>
+                            {
+                                target_arg_found = true;
+                            },
                             Rule::string_literal =>
                             {
                                 log_message_span = match rule.into_inner().next()
@@ -264,11 +283,19 @@ pub mod rust_log_ref_finder
                                 insertion_suffix = Some("; ".to_string());
                             }
 
-                            code_pos = Some(CodePosition::new(
-                                rule_ref_container_span.start() + 1,
-                                rule_ref_container_span.start_pos().line_col().0,
-                                rule_ref_container_span.start_pos().line_col().1 + 1,
-                            ));
+                            code_pos = Some(match &post_target_pos
+                            {
+                                Some(pos) => CodePosition::new(
+                                    pos.pos(),
+                                    pos.line_col().0,
+                                    pos.line_col().1,
+                                ),
+                                None => CodePosition::new(
+                                    rule_ref_container_span.start() + 1,
+                                    rule_ref_container_span.start_pos().line_col().0,
+                                    rule_ref_container_span.start_pos().line_col().1 + 1,
+                                ),
+                            });
                         }
                     }
                     else
